@@ -275,6 +275,13 @@ def menu(env, ref, tier, core_only=False):
             out.append(('foreach', 'e_', sname, [('selrel', 'many', 'bs2', V('e_'), [('B', 'R1', None)], None),
                                                  ('foreach', 'g_', 'bs2', [ASG(F('g_', 'N'), F('e_', 'N'))], True)], True))
             out.append(('foreach', 'e_', sname, [IF(F('e_', 'Flag'), [('return', V('e_'))])], True))
+    for sname in sets['A'][:1]:
+        # the loop variable is a name that is already bound (same type) in the enclosing block
+        for h in hs['A'][:2]:
+            out.append(('foreach', h, sname, [ASG(F(h, 'N'), B('+', F(h, 'N'), I(5)))], True))
+            if i0:
+                out.append(('foreach', h, sname, [ASG(V(i0), B('+', B('*', V(i0), I(10)), F(h, 'K')))], False))
+                out.append(IF(B('<', V(i0), I(9)), [('foreach', h, sname, [ASG(F(h, 'N'), B('+', F(h, 'K'), I(20)))], True)]))
     for sname in sets['B'][:1]:
         out.append(('foreach', 'e_', sname, [ASG(F('e_', 'N'), B('+', F('e_', 'N'), I(2)))], True))
     return out
